@@ -184,6 +184,7 @@ type reqState struct {
 	body  *ridBody
 	rec   *clientRec
 	w     http.ResponseWriter // rec, or rec behind an http.Hijacker
+	wkind string              // kind of the client writer: plain, readerfrom, stringwriter
 	up    []string            // kinds of the foreign writer wrappers before the LogMiddleware, outermost first
 	lvlOn bool                // the middleware's level was enabled when the request was sent
 
@@ -227,19 +228,62 @@ type clientRec struct {
 	owner int
 	hdr   http.Header
 	calls []call
+
+	helper, helperGated bool // a std-lib helper is writing: one model step, however many calls arrive
+}
+
+// gateCw parks in the client writer; while a std-lib helper op is running
+// only its first call does (the model has one "cw" step per handler op).
+func (c *clientRec) gateCw() {
+	if c.helper {
+		if c.helperGated {
+			return
+		}
+		c.helperGated = true
+	}
+	c.e.gate("cw")
 }
 
 func (c *clientRec) Header() http.Header { return c.hdr }
 
 func (c *clientRec) WriteHeader(code int) {
-	c.e.gate("cw")
+	c.gateCw()
 	c.calls = append(c.calls, call{Op: "wh", C: code})
 }
 
 func (c *clientRec) Write(b []byte) (int, error) {
-	c.e.gate("cw")
+	c.gateCw()
 	c.calls = append(c.calls, call{Op: "w", Data: string(b)})
 	return len(b), nil
+}
+
+// rfRec is a client writer that is also an io.ReaderFrom (as net/http's
+// HTTP/1 response is); swRec one that is also an io.StringWriter.
+type rfRec struct{ *clientRec }
+
+func (r rfRec) ReadFrom(src io.Reader) (int64, error) {
+	r.gateCw()
+	var buf [9]byte
+	var all []byte
+	for {
+		n, err := src.Read(buf[:])
+		all = append(all, buf[:n]...) // data first, then the error: the io.Reader contract
+		if err != nil {
+			r.calls = append(r.calls, call{Op: "rf", Data: string(all)})
+			if err == io.EOF {
+				err = nil
+			}
+			return int64(len(all)), err
+		}
+	}
+}
+
+type swRec struct{ *clientRec }
+
+func (w swRec) WriteString(s string) (int, error) {
+	w.gateCw()
+	w.calls = append(w.calls, call{Op: "ws", Data: s})
+	return len(s), nil
 }
 
 // informational reports a 1xx code that net/http sends at once without
@@ -249,7 +293,7 @@ func informational(c int) bool { return c >= 100 && c <= 199 && c != 101 }
 // Flush makes the client writer an http.Flusher (reached by
 // http.ResponseController through the wrapper's Unwrap).
 func (c *clientRec) Flush() {
-	c.e.gate("cw")
+	c.gateCw()
 	c.calls = append(c.calls, call{Op: "fl"})
 }
 
@@ -322,6 +366,89 @@ func reaches(up []string, capability string) bool {
 	return true
 }
 
+var clientKinds = []string{"plain", "readerfrom", "stringwriter"}
+
+// Sources for io.Copy (HttpOps "cp" kinds 1..5).
+var errSrc = errors.New("harness: source failed")
+
+type chunkSrc struct {
+	data []byte
+	kind int // 1 data then (0, EOF); 2 last data together with EOF; 3 (0, nil) reads in between; 5 fails after failAt bytes
+	pos  int
+	tick int
+}
+
+const srcChunk, failAt = 7, 10
+
+func (c *chunkSrc) Read(p []byte) (int, error) {
+	c.tick++
+	if c.kind == 3 && c.tick%2 == 0 {
+		return 0, nil
+	}
+	limit := len(c.data)
+	if c.kind == 5 {
+		limit = min(limit, failAt)
+	}
+	if c.pos >= limit {
+		if c.kind == 5 {
+			return 0, errSrc
+		}
+		return 0, io.EOF
+	}
+	n := copy(p[:min(len(p), srcChunk)], c.data[c.pos:limit])
+	c.pos += n
+	if c.kind == 2 && c.pos >= limit {
+		return n, io.EOF // the last bytes come WITH the EOF
+	}
+	return n, nil
+}
+
+// wtSrc has a WriteTo of its own (io.Copy then never looks at the writer's ReadFrom).
+type wtSrc struct{ chunkSrc }
+
+func (w *wtSrc) WriteTo(dst io.Writer) (int64, error) {
+	half := len(w.data) / 2
+	a, err := dst.Write(w.data[:half])
+	if err != nil {
+		return int64(a), err
+	}
+	b, err := dst.Write(w.data[half:])
+	return int64(a + b), err
+}
+
+// streamData is the byte string of helper op k of a request; intended is
+// what the client must end up with.
+func streamData(rid, k, kind int) (data, intended string) {
+	data = fmt.Sprintf("stream-%d-%d-%d;abcdefghijklmnopqrstuvwxyz", rid, k, kind)
+	if kind == 5 {
+		return data, data[:failAt]
+	}
+	return data, data
+}
+
+// helperWrite runs the std-lib helper of kind on w and reports what it returned.
+func helperWrite(w http.ResponseWriter, r *http.Request, kind int, data string, alt bool) (n int64, err error) {
+	switch kind {
+	case 1, 2, 3, 5:
+		src := &chunkSrc{data: []byte(data), kind: kind}
+		if alt {
+			return io.CopyBuffer(w, src, make([]byte, 5))
+		}
+		return io.Copy(w, src)
+	case 4:
+		return io.Copy(w, &wtSrc{chunkSrc{data: []byte(data), kind: 1}})
+	case 6:
+		m, err := io.WriteString(w, data)
+		return int64(m), err
+	case 7:
+		m, err := fmt.Fprintf(w, "%s", data)
+		return int64(m), err
+	default:
+		http.ServeContent(w, r, "", time.Time{}, strings.NewReader(data))
+		return int64(len(data)), nil
+	}
+}
+
 var errHijack = errors.New("harness: hijack refused")
 
 // hijackRec is a client writer that is also an http.Hijacker; mode (from the
@@ -351,6 +478,10 @@ func recOf(w http.ResponseWriter) *clientRec {
 		return c
 	case *hijackRec:
 		return c.clientRec
+	case rfRec:
+		return c.clientRec
+	case swRec:
+		return c.clientRec
 	}
 	return nil
 }
@@ -362,7 +493,7 @@ func recOf(w http.ResponseWriter) *clientRec {
 func status(calls []call) int {
 	for _, c := range calls {
 		switch {
-		case c.Op == "w" || c.Op == "fl": // a flush commits the header too
+		case c.Op == "w" || c.Op == "fl" || c.Op == "cp": // a flush commits the header too
 			return http.StatusOK
 		case c.Op == "wh" && !informational(c.C):
 			return c.C
@@ -396,17 +527,18 @@ func allowedFin(ops []op) []int {
 // env is one run of one LogMiddleware: the scheduler (nil when free
 // running), the active gates and the tracer (nil in the race-hunting phase).
 type env struct {
-	s      *sched.Sched
-	gates  map[string]bool
-	tr     *tracer
-	retain bool
-	off    bool        // base handler disabled
-	mwOff  bool        // the middleware's level (Debug) is below the base handler's minimum (Info): no started / finished records, but the inner handler logs at Warn and its context logger must still carry the request's attributes
-	yield  bool        // free running: yield the processor at every gate to shuffle the requests
-	col    *collector  // loopback mode: records are collected, not routed by context
-	forms  []string    // request-target form per slot (default: rotate by request id)
-	ups    [][]string  // foreign writer wrappers per slot, outermost first (default: rotate by request id)
-	lvlOff atomic.Bool // the logger's level currently filters the middleware's records out
+	s       *sched.Sched
+	gates   map[string]bool
+	tr      *tracer
+	retain  bool
+	off     bool        // base handler disabled
+	mwOff   bool        // the middleware's level (Debug) is below the base handler's minimum (Info): no started / finished records, but the inner handler logs at Warn and its context logger must still carry the request's attributes
+	yield   bool        // free running: yield the processor at every gate to shuffle the requests
+	col     *collector  // loopback mode: records are collected, not routed by context
+	forms   []string    // request-target form per slot (default: rotate by request id)
+	writers []string    // kind of each slot's client writer (default: rotate by request id)
+	ups     [][]string  // foreign writer wrappers per slot, outermost first (default: rotate by request id)
+	lvlOff  atomic.Bool // the logger's level currently filters the middleware's records out
 
 	mu       sync.Mutex // anomalies only
 	unrouted int
@@ -452,6 +584,17 @@ func (e *env) newRequest(slot, rid int, ops []op) (st *reqState, r *http.Request
 	st.body = &ridBody{r: strings.NewReader(st.spec.body)}
 	st.rec = &clientRec{e: e, owner: rid, hdr: http.Header{}}
 	st.w = st.rec
+	kind := clientKinds[rid%len(clientKinds)]
+	if slot >= 1 && slot <= len(e.writers) {
+		kind = e.writers[slot-1]
+	}
+	switch kind {
+	case "readerfrom":
+		st.w = rfRec{st.rec}
+	case "stringwriter":
+		st.w = swRec{st.rec}
+	}
+	st.wkind = kind
 	for _, o := range ops {
 		if o.Op == "hj" {
 			if o.C != 3 { // the client's writer is an http.Hijacker
@@ -708,6 +851,25 @@ func (e *env) inner(find func(r *http.Request) *reqState) http.Handler {
 				if o.C == 3 {
 					continue // no Hijacker underneath: nothing reaches the client
 				}
+			case "cp":
+				// a std-lib helper: however it reaches the client (Write, ReadFrom,
+				// WriteString, in however many pieces), the bytes must be exact
+				data, intended := streamData(st.spec.rid, k, o.C)
+				st.rec.helper, st.rec.helperGated = true, false
+				got, err := helperWrite(w, r, o.C, data, st.spec.rid%2 == 1)
+				st.rec.helper = false
+				if o.C == 5 {
+					if !errors.Is(err, errSrc) {
+						st.problem("io.Copy of request %d from a failing source returned error %v, want the source's", st.spec.rid, err)
+					}
+				} else if err != nil {
+					st.problem("std-lib helper %d of request %d returned error %v", o.C, st.spec.rid, err)
+				}
+				if got != int64(len(intended)) {
+					st.problem("std-lib helper %d of request %d reported %d bytes written, the source has %d", o.C, st.spec.rid, got, len(intended))
+				}
+				c.Data = intended
+				st.rec.calls = collapse(st.rec.calls, n, o.C)
 			case "fl", "srd", "swd", "efd":
 				c.C = 0
 				rc := http.NewResponseController(w)
@@ -752,6 +914,24 @@ func (e *env) inner(find func(r *http.Request) *reqState) http.Handler {
 		st.observe(e, "hpost", w, r)
 		st.phase = 3
 	})
+}
+
+// collapse replaces the calls a std-lib helper made on the client writer
+// (from index n on) by ONE "cp" call holding all the bytes, whatever mix of
+// Write / ReadFrom / WriteString delivered them; http.ServeContent's own
+// WriteHeader(200) is part of the helper.
+func collapse(calls []call, n, kind int) []call {
+	var data strings.Builder
+	for i, c := range calls[n:] {
+		switch {
+		case c.Op == "w" || c.Op == "rf" || c.Op == "ws":
+			data.WriteString(c.Data)
+		case kind == 8 && i == 0 && c.Op == "wh" && c.C == http.StatusOK:
+		default:
+			return calls // something else arrived: leave it for the comparison to show
+		}
+	}
+	return append(calls[:n:n], call{Op: "cp", C: kind, Data: data.String()})
 }
 
 // hijack takes the connection over through the writer the handler was given
@@ -917,7 +1097,14 @@ func (st *reqState) check(e *env, expectedFin int) (problems []string, policy bo
 	if !slices.Equal(st.rec.calls, st.made) {
 		add("client of request %d received %v, its handler invocation wrote %v", sp.rid, st.rec.calls, st.made)
 	}
+	served := false // http.ServeContent sets its own headers
+	for _, o := range st.ops {
+		served = served || (o.Op == "cp" && o.C == 8)
+	}
 	for k, v := range st.rec.hdr {
+		if served && (k == "Content-Type" || k == "Content-Length" || k == "Accept-Ranges" || k == "Last-Modified") {
+			continue
+		}
 		for _, x := range v {
 			if x != strconv.Itoa(sp.rid) {
 				add("client of request %d received header %s: %s", sp.rid, k, x)
@@ -1035,6 +1222,9 @@ func opsKey(ops []op) string {
 			b.WriteString("W")
 		case "hj":
 			fmt.Fprintf(&b, "Hijack[%s]", []string{"?", "ok", "fails", "unsupported"}[min(max(o.C, 0), 3)])
+		case "cp":
+			b.WriteString([]string{"?", "io.Copy(data,then EOF)", "io.Copy(data+EOF)", "io.Copy((0,nil) reads)", "io.Copy(WriterTo)",
+				"io.Copy(failing source)", "io.WriteString", "fmt.Fprintf", "http.ServeContent"}[min(max(o.C, 0), 8)])
 		case "fl":
 			b.WriteString("Flush")
 		case "srd":
